@@ -51,7 +51,7 @@ PROPS.update({
                 invariants="RasterSide/RasterCentres/RasterUniform/RasterPng over RegsAfter(program) (TV)"),
     "C16": dict(scen=[("core", "text", True)], mc=mcq("MC_Render"),
                 invariants="TextShape/TextBorder/TextModules (TV); MC_Render: decode o TextOf = id on all 0/1 matrices of a small side"),
-    "C17": dict(scen=[("hooked", "wasm", True)], mc={"quick": [], "thorough": []},
+    "C17": dict(scen=[("hooked|wasm", "wasm", True)], mc={"quick": [], "thorough": []},
                 invariants="HavocExact, TypeOK (MC_Wasm, GEN); WasmNeverTraps, WasmEqualsNative = Render predicates on NativeOf(W_After(program)) + string equality with the native output (TV)"),
     "C18": dict(scen=[("core", "frames", True)], mc=mcq("MC_Render"),
                 invariants="FrameDefault, FrameImageCentred, monotone frame side (FrameSweep), FrameOverrides (TV)"),
@@ -255,7 +255,17 @@ def run_property(pid, tier, seed, replay=None, spec=None):
             continue
         scen_key = scen
         try:
-            binary = runner.build_harness(kind)
+            binary = None
+            kinds = kind.split("|")
+            for ki, kd in enumerate(kinds):       # "hooked|wasm": the first flavour that builds against the tree under test
+                try:
+                    binary = runner.build_harness(kd)
+                    if ki > 0:
+                        notes.append(f"harness flavour '{kinds[0]}' does not build against the tree; scenario '{scen}' driven by flavour '{kd}'")
+                    break
+                except ToolError:
+                    if ki == len(kinds) - 1:
+                        raise
         except ToolError as e:
             if required:
                 raise
